@@ -477,6 +477,13 @@ def ctx_block_value(rng, st):
 def ctx_block_key(rng, st):
     d, w = rng.randrange(3), rng.randint(1, 4)
     pre, ev, evp, b = parents(d, w)
+    if rng.random() < 0.15:
+        # the key's ':' ends the INPUT (or the line): the value is left out.  The end-of-input shape is what the byte-level
+        # StrInput::next_can_be_plain_scalar decides on its own path (seeded change C04-4).
+        post = rng.choice([":", ":", " :", ":\n", ": \n"])
+        st["block-key:value-left-out"] += 1
+        return dict(name="block-key", pre=pre + " " * b, post=post, n=b + 1, multi=False, flow=False,
+                    before=["DS"] + ev + ["MS"], after=[("SC", "P", "~")] + ["ME"] + evp + ["DE"], depth=d, col0=(b == 0))
     post = rng.choice([": v", ": v", " : v", ":  v"]) + "\n"
     more = rng.random() < 0.3
     if more:
